@@ -23,6 +23,7 @@ var Scalars = []string{
 var TopOnly = []string{"Date", "Date32", "DateTime", "DateTime64(3)", "DateTime64(9)", "Point",
 	"Enum8('a' = 1, 'b' = 2)", "Enum8('neg' = -128, 'zero' = 0, 'max' = 127, 'x y' = 5)", "Enum16('lo' = -32768, 'a' = 1, 'big' = 300, 'hi' = 32767)",
 	"IntervalSecond", "IntervalWeek", "IntervalYear",
+	"JSON",
 }
 
 // Maps with a static instantiation in NewCol.
